@@ -362,6 +362,12 @@ func runC17(r *ev.Run) {
 		depth = 3
 		prefixes = []int{0, 1, 2, 3, 4, 5, 6}
 	}
+	if r.Thorough() && r.Replay == "" {
+		// time budget: every universe at the quick depth first, then the deeper level
+		for ui, u := range unis {
+			runC17Universe(r, ui, u, 2, prefixes)
+		}
+	}
 	for ui, u := range unis {
 		runC17Universe(r, ui, u, depth, prefixes)
 	}
